@@ -62,6 +62,7 @@ fn fault_str(f: &Fault) -> String {
         Fault::Reserved(r) => format!("Reserved:{r}"),
         Fault::Raw(b) => format!("Raw:{}", hex(b)),
         Fault::NoAck => "NoAck".into(),
+        Fault::LateAck => "LateAck".into(),
         Fault::OnPending(k, inner) => format!("OnPending:{k}:{}", fault_str(inner)),
     }
 }
@@ -92,6 +93,7 @@ fn fault_parse(s: &str) -> Fault {
         "Reserved" => Fault::Reserved(num(rest) as u16),
         "Raw" => Fault::Raw(unhex(rest)),
         "NoAck" => Fault::NoAck,
+        "LateAck" => Fault::LateAck,
         "OnPending" => {
             let (a, b) = rest.split_once(':').unwrap();
             Fault::OnPending(num(a), Box::new(fault_parse(b)))
@@ -214,7 +216,7 @@ fn split_txns(wire: &[Wire]) -> Vec<Txn> {
     let mut out: Vec<Txn> = vec![];
     for w in wire {
         match w {
-            Wire::Send { data, err } => out.push(Txn { cmd: data.clone(), send_err: *err, recvs: vec![] }),
+            Wire::Send { data, err, .. } => out.push(Txn { cmd: data.clone(), send_err: *err, recvs: vec![] }),
             Wire::Recv { res, .. } => {
                 if let Some(t) = out.last_mut() {
                     t.recvs.push(res.clone());
@@ -447,7 +449,7 @@ fn run_session(rep: &mut Report, spec: &SessionSpec, label: &str) {
             // channel closed first so that the limits are renegotiated)
             let mut tail = if tainted { vec![Op::Close, Op::Open] } else { vec![Op::Open] };
             tainted = false;
-            tail.extend([Op::Read { addr: 0x5000, n: 120 }, Op::Write { addr: 0x6100, n: 120, pat: 3 }, Op::Read { addr: 0x6100, n: 120 }]);
+            tail.extend([Op::Read { addr: 0x7000, n: 120 }, Op::Write { addr: 0x7100, n: 120, pat: 3 }, Op::Read { addr: 0x7100, n: 120 }, Op::Read { addr: 0x7200, n: 8 }]);
             tail.extend(ops.drain(i..));
             ops.truncate(i);
             ops.extend(tail);
@@ -562,7 +564,7 @@ fn main() {
     }
     faults.extend([Fault::WrittenLen(0), Fault::WrittenLen(1), Fault::WrittenLen(43), Fault::WrittenLen(45), Fault::WrittenLen(0xFFFF)]);
     faults.extend([Fault::Reserved(1), Fault::Reserved(0xFFFF)]);
-    faults.extend([Fault::Raw(vec![]), Fault::Raw(vec![0x55]), Fault::Raw(vec![0x55, 0x33, 0x56, 0x43]), Fault::Raw(rng.bytes(12)), Fault::Raw(rng.bytes(40)), Fault::NoAck]);
+    faults.extend([Fault::Raw(vec![]), Fault::Raw(vec![0x55]), Fault::Raw(vec![0x55, 0x33, 0x56, 0x43]), Fault::Raw(rng.bytes(12)), Fault::Raw(rng.bytes(40)), Fault::NoAck, Fault::LateAck]);
     faults.extend([Fault::Pendings(1), Fault::Pendings(2), Fault::Pendings(3), Fault::Pendings(4), Fault::Pendings(5), Fault::Pendings(6), Fault::Pendings(100), Fault::Pendings(u64::MAX)]);
     for inner in [Fault::Status(0x8007), Fault::ReqIdDelta(1), Fault::Truncate(14), Fault::Truncate(12), Fault::Reserved(1), Fault::ScdLenField(0), Fault::Kind(0x0801), Fault::Magic(0), Fault::Append(3)] {
         faults.push(Fault::OnPending(0, Box::new(inner.clone())));
